@@ -12,7 +12,7 @@
 
   J in prefix notation:  n | t | f | i <int> | d <0|1> <digits> <exp> | s <hex> |
                          a <count> J… | o <count> (<hexkey> J)…
-  raw tokens:            { } [ ] and n t f | i <int> | d … | s <hex> | v (number beyond float64)
+  raw tokens:            { } [ ] and n t f | i <int> | d … | s <hex> | v (number beyond float64: tokenToValue fails)
 -/
 import GoblVerif.Model.C14n
 import GoblVerif.Spec.C07
